@@ -850,6 +850,9 @@ def c18_jobs(tier, repo):
     for i in range(n):
         jobs.append(Job("c18_alloc", C18_BUILD, ["--mode=clean", "--depth=%d" % depth, "--shard=%d" % i, "--nshards=%d" % n],
                         "failure-free histories of %d operations, shard %d/%d" % (depth, i, n)))
+    # failure-free runs of the socket thread ended by the real rtr_stop at every point where it can be cancelled
+    d = 12 if tier == "quick" else 18
+    jobs += [_ej("C18S", d, 3, 2, 600, 1), _ej("C18S", d, 1, 1, 600, 1), _ej("C18S", d, 3, 2, 600, 0)]
     return jobs
 
 
@@ -864,7 +867,12 @@ SPECS["C18"] = CheckSpec(
          "full effect, after a failed synchronisation the tables must still behave as sets and another source's records "
          "must survive; (clean) ALL failure-free histories of the stated length over 24 operations (prefix, key, "
          "synchronisation) from two seeds: after freeing the tables no block is outstanding, no block was released "
-         "through another allocator (ASan reports a libc free of a tagged block, the allocator a foreign block)",
+         "through another allocator (ASan reports a libc free of a tagged block, the allocator a foreign block); "
+         "(stop) explicit-state BFS over conversations of the real socket thread (answers {ok, new data, Cache Reset, "
+         "response cut after its first payload PDU, duplicate announcement, timeout}, open {ok, fails}) with a stop "
+         "request offered at EVERY point where the thread can be cancelled (waiting in ESTABLISHED, retry sleeps, "
+         "blocked in a receive call of a synchronisation before and inside the payload); the real rtr_stop cancels and "
+         "joins the thread, the tables are freed, and no block of the configured allocator may be outstanding",
     assumptions=["single allocation failures only (the k-th, for every k), as the statement says",
                  "histories of 3 (thorough 4) operations in the clean mode"],
     counters_map={"executions": ["transitions"], "distinct": ["distinct_outcomes", "states"]},
